@@ -97,6 +97,12 @@ class H:
     def __repr__(self):
         return 'H(f%d, %r, %r)' % (self.fn, self.args, self.kwargs)
 
+    def __reduce__(self):
+        # serialising a result takes time: the first H pickled inside a store.dump() of a worker is a scheduling point ("inside dump"),
+        # where a stop request or a kill can arrive
+        _pickle_hook()
+        return (H, (self.fn, self.args, self.kwargs))
+
     def __jug_hash__(self):
         # structural: an H passed as a plain argument (the value a bvalue() returned) must hash by content, not by how
         # its parts happen to be shared in memory (jug pickles unknown objects, and pickle memoises shared sub-objects)
@@ -123,6 +129,18 @@ def sub_py(cls, vs):
     if cls == 'ddict':
         return collections.defaultdict(None, v)
     raise ValueError(cls)
+
+
+_active_rt = None
+
+
+def _pickle_hook():
+    w = _me()
+    rt = _active_rt
+    if w is None or rt is None or not w.in_dump or w.dump_hooked:
+        return
+    w.dump_hooked = True
+    rt.point(w, 'pickle', w.in_dump)
 
 
 def _keyc(k):
@@ -974,6 +992,8 @@ class Worker:
         self.interrupted = False
         self.kinds = []
         self.noyield = False
+        self.in_dump = 0            # tid of the task whose result this worker is serialising inside store.dump() right now
+        self.dump_hooked = False
 
 
 class ProxyLock:
@@ -1063,8 +1083,12 @@ class ProxyStore:
         tid = self.rt.tid_of(name, 'dump')
         self.rt.point(w, 'dump', tid)
         c = self.rt.canon(obj)
-        w.store.dump(obj, name)
-        self.rt.log(('EDump', w.wid, tid, c))
+        w.in_dump, w.dump_hooked = tid or -1, False
+        try:
+            w.store.dump(obj, name)             # may be cut short by a stop request / kill delivered while the value is pickled
+        finally:
+            w.in_dump = 0
+        self.rt.log(('EDump', w.wid, tid, c))   # only when the real dump() returned normally
 
     def getlock(self, name):
         return ProxyLock(self.rt, name, self.rt.tid_of(name, 'getlock'))
@@ -1204,7 +1228,7 @@ class Policy:
 # scheduling points at which a stop request may be delivered (the model excludes the instants inside
 # lock release / fail and the exception handler)
 INTR_STRICT = ('ret', 'sleep', 'hook_pre', 'hook_exec1')
-INTR_POINTS = INTR_STRICT + ('start', 'can_load', 'load', 'lock', 'dump')
+INTR_POINTS = INTR_STRICT + ('start', 'can_load', 'load', 'lock', 'dump', 'pickle')
 
 
 class Result:
@@ -1266,7 +1290,7 @@ class Runtime:
             raise _Killed()
         if w.noyield:
             return          # inside a step that is atomic by construction (loading the jugfile): events are logged, nobody else runs
-        if self.coarse and kind in ('start', 'hook_pre', 'hook_exec1'):
+        if self.coarse and kind in ('start', 'hook_pre', 'hook_exec1', 'pickle'):
             return
         with self.cv:
             w.pending = (kind, tid)
@@ -1521,7 +1545,7 @@ class Runtime:
 def patched(rt):
     """Task.store -> proxy, time.sleep -> scheduling point, Task.run -> logs ERaise for failures before/after the function,
     logging silenced, hooks reset.  Everything is restored afterwards."""
-    global _direct_call
+    global _direct_call, _active_rt
     old_store = Task.store
     old_sleep = time.sleep
     old_run = Task.run
@@ -1563,6 +1587,7 @@ def patched(rt):
     time.sleep = sleep
     Task.run = run
     _direct_call = rt.call
+    _active_rt = rt
     logging.disable(logging.CRITICAL)
     rt.install_hooks()
     try:
@@ -1570,6 +1595,7 @@ def patched(rt):
     finally:
         logging.disable(logging.NOTSET)
         _direct_call = None
+        _active_rt = None
         Task.run = old_run
         time.sleep = old_sleep
         Task.store = old_store
@@ -1585,8 +1611,16 @@ def observe_store(rt):
     st = rt.backend.open()
     final = []
     for h in rt.master.hashes:
-        if st.can_load(h):
-            final.append(canon(st.load(h)))
+        present = bool(st.can_load(h))
+        if not present and rt.backend.dir is not None and os.path.exists(st._getfname(h)):
+            present = True                      # look at the backend directly, not only through can_load
+        if present:
+            try:
+                final.append(canon(st.load(h)))
+            except _Abort:
+                raise
+            except Exception as e:
+                final.append(('a', 'UNLOADABLE RESULT (%s)' % type(e).__name__))   # e.g. a half-written file published under the final name
         else:
             final.append(None)
     locks = {}
@@ -1869,6 +1903,9 @@ def oracle_sound(res):
         r = res.refs[i]
         if c is None:
             continue
+        if c[0] == 'a' and str(c[1]).startswith('UNLOADABLE RESULT'):
+            out.append({'what': 'a result is present in the store but cannot be loaded (partial result published)', 'task': i + 1, 'error': c[1]})
+            continue
         if r[0] != 'ok':
             out.append({'what': 'a result is stored for a task that has no value (raised / depends on a failed task)', 'task': i + 1,
                         'stored': canon_show(c)})
@@ -2012,6 +2049,22 @@ def holding_at(trace, w, upto):
             elif e[0] in ('EUnlock', 'EFailMark'):
                 t = None
     return t
+
+
+def oracle_unexplained_results(sc, res):
+    """after every phase: a result present in the real store (looked up in the backend directly) belongs to a task that was pre-filled or
+    whose store.dump() RETURNED in some worker; anything else is a partial result (e.g. a dump cut short by a stop request / kill)"""
+    out = []
+    pre = set(t for t, _ in res.r0)
+    for k, snap in enumerate(res.snapshots):
+        dumped = set(e[2] for e in res.trace[:snap['at']] if e[0] == 'EDump')
+        for i, c in enumerate(snap['final']):
+            if c is not None and (i + 1) not in dumped and (i + 1) not in pre:
+                cut = [e[1] for j, e in enumerate(res.trace[:snap['at']]) if e[0] in ('EInterrupt', 'ECrash')
+                       and any(x[0] == 'ERet' and x[1] == e[1] and x[2] == i + 1 for x in res.trace[max(0, j - 3):j])]
+                out.append({'what': 'a result is present for a task whose store.dump() never completed (stop request / kill inside dump)',
+                            'task': i + 1, 'phase': k, 'stopped_workers': cut, 'content': canon_show(c)[:200]})
+    return out
 
 
 def oracle_c12(sc, res):
